@@ -241,7 +241,8 @@ func runCDirFault(r *verifsim.Run) {
 		cn.Ev = append(cn.Ev, s.next('F', false))
 	}
 	sc := &cScenario{Conns: []*cConn{cn}, Focus: "C12"}
-	if cfg.Cont && r.Chance(1, 4) {
+	sc.PreDir = r.Chance(1, 3) // the output directory of an earlier run of the daemon
+	if !sc.PreDir && cfg.Cont && r.Chance(1, 4) {
 		// one more storage fault: the folder of the continuous recorder cannot be created (a file is in the way);
 		// its recordings fail to start, nothing else is affected
 		sc.PreFile = true
